@@ -261,7 +261,17 @@ public:
       else if (V->isStaticDataMember()) sc = "static_member";
       else if (V->hasGlobalStorage()) sc = "global";
       o["sc"] = sc;
-      if (const auto *P = dyn_cast<ParmVarDecl>(V)) o["pi"] = (int64_t)P->getFunctionScopeIndex();
+      if (const auto *P = dyn_cast<ParmVarDecl>(V)) {
+        o["pi"] = (int64_t)P->getFunctionScopeIndex();
+        // value of an integral default argument (K8 table agreement: a default read elsewhere must agree with the one declared here)
+        if (P->hasDefaultArg() && !P->hasUninstantiatedDefaultArg() && !P->hasUnparsedDefaultArg() && !P->getType()->isDependentType()) {
+          const Expr *DA = P->getDefaultArg();
+          if (DA && !DA->isValueDependent() && !DA->isTypeDependent() && P->getType()->isIntegralOrEnumerationType()) {
+            Expr::EvalResult R;
+            if (DA->EvaluateAsInt(R, Ctx)) o["defv"] = R.Val.getInt().getExtValue();
+          }
+        }
+      }
       if (V->getType().isConstQualified() && !V->getType()->isDependentType()) {
         if (const Expr *I = V->getAnyInitializer()) {
           if (!I->isValueDependent() && V->getType()->isIntegralOrEnumerationType()) {
